@@ -84,18 +84,18 @@ def fmtSci (f : Float) (d : Nat) : Str :=
 
 def trimZerosR (s : Str) : Str := (s.reverse.dropWhile (· = '0')).reverse
 
-/-- `strconv.FormatFloat(f, 'G', 10, 64)` -/
-def fmtG10 (f : Float) : Str :=
+/-- `strconv.FormatFloat(f, 'G', prec, 64)` for prec ≥ 1 -/
+def fmtG (prec : Nat) (f : Float) : Str :=
   if f.isNaN then bs "NaN" else if f.isInf then (if isNeg f then bs "-Inf" else bs "+Inf") else
   let sign : Str := if isNeg f then ['-'] else []
   let (m, e) := decode f
   if m = 0 then sign ++ ['0'] else
   let (num, den) := if e ≥ 0 then (m * 2 ^ e.toNat, 1) else (m, 2 ^ (-e).toNat)
-  let (s, k) := sigRound num den 10
+  let (s, k) := sigRound num den prec
   let ds := trimZerosR (itoa s)
   let nd := ds.length
   let dp : Int := k + 1
-  let eprec : Int := if 10 > nd ∧ (nd : Int) ≥ dp then nd else 10
+  let eprec : Int := if prec > nd ∧ (nd : Int) ≥ dp then nd else prec
   let exp := dp - 1
   if exp < -4 ∨ exp ≥ eprec then
     sign ++ (match ds with
@@ -108,6 +108,9 @@ def fmtG10 (f : Float) : Str :=
       let j : Int := dp + (i : Int)
       if 0 ≤ j then (ds[j.toNat]?).getD '0' else '0'
     sign ++ ip ++ (if prec > 0 then '.' :: fp else [])
+
+/-- `strconv.FormatFloat(f, 'G', 10, 64)` (General) -/
+def fmtG10 (f : Float) : Str := fmtG 10 f
 
 /-- the NumIn of a float pair (`pf` = ParseFloat(value), `flt` = isNumeric's float) -/
 def numIn (isNum : Bool) (precision : Nat) (pf : Float) (absShort big0 big1 : Str) : NumIn where
